@@ -80,6 +80,9 @@ func RewriteClause(decls map[ast.PredicateSym]*ast.Decl, clause ast.Clause) ast.
 			negVars := make(map[ast.Variable]bool)
 			ast.AddVars(p, negVars)
 			for v := range negVars {
+				if v.Symbol == "_" {
+					continue // a wildcard never needs a binding
+				}
 				if boundVars.Find(v) == -1 {
 					varToBind[v] = true
 				}
@@ -103,7 +106,7 @@ func RewriteClause(decls map[ast.PredicateSym]*ast.Decl, clause ast.Clause) ast.
 				premises = append(premises, delayNegAtom[i])
 				toRemove = append([]int{i}, toRemove...)
 			}
-			for i := range toRemove {
+			for _, i := range toRemove {
 				negAtomTail := []ast.Term{}
 				varsTail := []map[ast.Variable]bool{}
 				if i+1 < len(delayNegAtom) {
@@ -115,5 +118,8 @@ func RewriteClause(decls map[ast.PredicateSym]*ast.Decl, clause ast.Clause) ast.
 			}
 		}
 	}
+	// Negated atoms whose variables never get bound stay in the clause, so that
+	// the rule check can reject it instead of evaluating the rule without them.
+	premises = append(premises, delayNegAtom...)
 	return ast.Clause{Head: clause.Head, HeadTime: clause.HeadTime, Premises: premises, Transform: clause.Transform}
 }
